@@ -2,10 +2,12 @@ import CdsVerif.Driver.LinCheck
 import CdsVerif.Gen.Dispatch
 import CdsVerif.Driver.SeqEval
 import CdsVerif.Driver.Replay
+import CdsVerif.Driver.Snapshot
 import CdsVerif.Algo.Spin.Model
 import CdsVerif.Algo.Treiber.Model
 import CdsVerif.Algo.MSQueue.Model
 import CdsVerif.Algo.Ring.Model
+import CdsVerif.Algo.Vyukov.Model
 open CdsVerif.Driver
 
 partial def lcLoop (h : IO.FS.Stream) (st : LcState) : IO Unit := do
@@ -71,6 +73,7 @@ def main (args : List String) : IO UInt32 := do
   | ["lincheck"] => lcLoop stdin {}; return 0
   | ["eval"] => evalLoop stdin; return 0
   | ["seqeval"] => seqLoop stdin; return 0
+  | ["snapshot"] => snapLoop stdin; return 0
   | ["replay", "msqueue"] =>
     replayLoop stdin CdsVerif.Algo.MSQueue.model (fun _ => CdsVerif.Algo.MSQueue.init)
       (fun loc => loc == "head" || loc == "tail" || (loc.startsWith "n" && !(loc.any (· == '+')))) (fun _ => true) none
@@ -82,6 +85,11 @@ def main (args : List String) : IO UInt32 := do
   | ["replay", "spin"] =>
     replayLoop stdin CdsVerif.Algo.Spin.model (fun _ => CdsVerif.Algo.Spin.init)
       (fun loc => loc.startsWith "L") (fun _ => true) none
+    return 0
+  | ["replay", "vyukov"] =>
+    -- initial state from the header words `cap=<capacity()>` and `rot=<warm-up rotations>`
+    replayLoop stdin CdsVerif.Algo.Vyukov.model (fun cfg => CdsVerif.Algo.Vyukov.initCfg cfg)
+      (fun loc => loc == "posEnq" || loc == "posDeq" || loc.startsWith "seq") (fun _ => true) none
     return 0
   | ["replay", "ring"] =>
     -- initial state from the header words `cap=<capacity()>` and (optional) `rot=<warm-up rotations>`
